@@ -79,7 +79,8 @@ func (r PayloadRange) Resolve(payloadLen uint64) (uint64, uint64, error) {
 		last := min(r.Second, payloadLen-1)
 		off, ln = r.First, last-r.First+1
 	case PayloadRangeModeFrom:
-		if r.First >= payloadLen {
+		// "from 0" is the whole payload (see IsFull), also when the payload is empty.
+		if r.First != 0 && r.First >= payloadLen {
 			return 0, 0, apistatus.ErrObjectOutOfRange
 		}
 		off, ln = r.First, payloadLen-r.First
